@@ -7,7 +7,9 @@ import (
 	"math/rand"
 	"os"
 	"path/filepath"
+	"regexp"
 	"sort"
+	"strconv"
 	"strings"
 	"time"
 
@@ -770,6 +772,55 @@ func c04CLI(c *fw.Case, env *fw.Env, o *fw.Obs, p *c04Params, cols []string, row
 	o.Ev("events_added", int64(gotAdded))
 	o.Ev("events_removed", int64(gotRemoved))
 	o.Ev("events_modified", int64(gotMod))
+	// the summary form: branch s was committed from s.csv when it held table 2; the file now holds table 1;
+	// `wrgl diff --all` must summarise exactly the same three counts for it
+	sp := filepath.Join(root, "s.csv")
+	os.WriteFile(sp, gen.ToCSV(t2, 0), 0644)
+	sargs := []string{"commit", "s", sp, "c", "--no-progress", "-n", "3", "--set-file", "--set-primary-key"}
+	if len(pkNames) > 0 {
+		sargs = append(sargs, "-p", strings.Join(pkNames, ","))
+	}
+	if _, err, pn := mon.Wrgl(wd, nil, sargs...); err == nil && pn == "" {
+		os.WriteFile(sp, gen.ToCSV(t1, 0), 0644)
+		future := time.Now().Add(3 * time.Second)
+		os.Chtimes(sp, future, future) // the file is newer than anything cached, whatever the second we are in
+		sout, err, pn := mon.Wrgl(wd, nil, "diff", "--all")
+		o.Ev("oracle_evaluations", 1)
+		o.Ev("cli_diff_summaries", 1)
+		if pn != "" {
+			o.Violate("panic/wrgl-diff-all/"+class, "%s", pn)
+			return o
+		}
+		if err != nil {
+			o.Violate("diff-error/wrgl-diff-all/"+class, "%v %s", err, sout)
+			return o
+		}
+		plain := regexp.MustCompile("\\x1b\\[[0-9;]*m").ReplaceAllString(sout, "")
+		line := ""
+		for _, l := range strings.Split(plain, "\n") {
+			if f := strings.Fields(l); len(f) > 0 && f[0] == "s" {
+				line = l
+			}
+		}
+		num := func(re string) int {
+			if m := regexp.MustCompile(re).FindStringSubmatch(line); m != nil {
+				n, _ := strconv.Atoi(m[1])
+				return n
+			}
+			return 0
+		}
+		sa, sr, sm := 0, 0, 0
+		if i := strings.Index(line, "rows:"); i >= 0 {
+			line = line[i:]
+			sa, sr, sm = num(`\+(\d+)`), num(`-(\d+)`), num(`m(\d+)`)
+		} else {
+			line = ""
+		}
+		if sa != wantAdded || sr != wantRemoved || sm != wantMod {
+			o.Violate("summary-wrong/wrgl-diff-all/"+class, "`wrgl diff --all` summarises branch s as %q, the file differs from the branch by +%d/-%d/m%d (key %v)", strings.TrimSpace(line), wantAdded, wantRemoved, wantMod, pkNames)
+			return o
+		}
+	}
 	if len(t1.Rows)+len(t2.Rows) >= 2 {
 		o.Key("%s/%d-%d/%d", class, len(t1.Rows), len(t2.Rows), c.Seed%100000)
 	}
